@@ -14,10 +14,11 @@ import Imeta.Driver.Png
 import Imeta.Driver.Bufio
 import Imeta.Driver.Bmff
 import Imeta.Driver.Xmp
+import Imeta.Driver.Dct
 open Imeta
 
 def handlers : List (List String → Option String) :=
-  [Tiff.handle, ImageType.handle, EnumsDrv.handle, CodecDrv.handle, HashDrv.handle, JpegDrv.handle, ExifDrv.handle, PngDrv.handle, BufioDrv.handle, BmffDrv.handle, XmpDrv.handle]
+  [Tiff.handle, ImageType.handle, EnumsDrv.handle, CodecDrv.handle, HashDrv.handle, JpegDrv.handle, ExifDrv.handle, PngDrv.handle, BufioDrv.handle, BmffDrv.handle, XmpDrv.handle, DctDrv.handle]
 
 def dispatch (line : String) : String :=
   let toks := (line.trimAscii.toString.splitOn " ").filter (· ≠ "")
